@@ -57,6 +57,16 @@ type Exec struct {
 	curProps []string
 	topParams map[string]Val
 	usedUnknown map[string]bool
+	usedContracts map[string]bool
+	prop string // property being decided: only clauses tagged with it (or untagged) are active
+}
+
+// active: per-property slicing of contracts. In a run for property P a clause
+// is assumed/checked iff it is untagged or tagged P; clauses serving only other
+// properties are ignored, so a broken clause alarms exactly the properties it
+// is tagged with.
+func (ex *Exec) active(props []string) bool {
+	return ex.prop == "" || len(props) == 0 || hasProp(props, ex.prop)
 }
 
 const maxStepsPerFunc = 400000
@@ -168,6 +178,22 @@ func (ex *Exec) assumeTypeInv(st *State, x Term, t types.Type) {
 	}
 }
 
+// knownVal: pointer-like values read from memory or returned by callees
+// denote already-allocated objects.
+func (ex *Exec) knownVal(st *State, x Term, t types.Type) {
+	switch x.Sort {
+	case SortInt:
+		switch t.Underlying().(type) {
+		case *types.Pointer, *types.Map, *types.Chan, *types.Signature:
+			st.known(x)
+		}
+	case SortSlice:
+		st.known(SlRg(x))
+	case SortIface:
+		st.known(IfVal(x))
+	}
+}
+
 func sliceInv(s Term) Term {
 	return And(Le(IntLit(0), SlOff(s)), Le(IntLit(0), SlLen(s)), Le(SlLen(s), SlCap(s)),
 		Le(SlCap(s), BigLit(pow2(56))), Ge(SlRg(s), IntLit(0)),
@@ -193,6 +219,14 @@ func (ex *Exec) check(st *State, fr *Frame, class, label string, goal Term, prop
 	name := fmt.Sprintf("%s/%s#%s", funcKey(ex.top), class, label)
 	if fr != nil && fr.fn != ex.top && fr.depth > 0 {
 		name = fmt.Sprintf("%s/%s#%s@%s", funcKey(ex.top), class, label, shortFn(fr.fn))
+	}
+	if !ex.active(props) {
+		return
+	}
+	if len(props) == 0 && ex.prop != "" {
+		// untagged clauses (helper invariants, preconditions) are part of
+		// every property's proof: in this run they count for this property
+		props = []string{ex.prop}
 	}
 	c := &Check{Name: name, Class: class, Fn: funcKey(ex.top), Props: props, Goal: goal.S, Trivial: goal.B == 1,
 		Info: info, Src: src, Path: strings.Join(st.path, ",")}
@@ -293,9 +327,10 @@ func (ex *Exec) runBlock(st *State, fr *Frame, b *ssa.BasicBlock, prev *ssa.Basi
 			if st.inLoop[key] {
 				// back edge: preservation
 				st.path = append(st.path, fmt.Sprintf("loop%d.back", n))
-				ex.checkInvariants(st, fr, n, spec, "inv-pres")
+				ex.checkInvariants(st, fr, b, n, spec, "inv-pres")
 				if spec.Decreases != nil {
 					env := ex.invEnv(st, fr)
+					env.loopHead = b
 					v, err := ex.evalSpec(spec.Decreases.Expr, env)
 					if err != nil {
 						ex.errors = append(ex.errors, fmt.Sprintf("%s: loop %d decreases: %v", fr.fn, n, err))
@@ -309,10 +344,14 @@ func (ex *Exec) runBlock(st *State, fr *Frame, b *ssa.BasicBlock, prev *ssa.Basi
 				return
 			}
 			st.path = append(st.path, fmt.Sprintf("loop%d.enter", n))
-			ex.checkInvariants(st, fr, n, spec, "inv-init")
+			ex.checkInvariants(st, fr, b, n, spec, "inv-init")
 			ex.havocLoop(st, fr, b)
 			env := ex.invEnv(st, fr)
+			env.loopHead = b
 			for _, inv := range spec.Invariants {
+				if !ex.active(inv.Props) {
+					continue
+				}
 				t, err := ex.evalSpecBool(inv.Expr, env)
 				if err != nil {
 					ex.errors = append(ex.errors, fmt.Sprintf("%s: loop %d invariant %s: %v", fr.fn, n, inv.Label, err))
@@ -348,9 +387,13 @@ func mergeProps(a, b []string) []string {
 	return sortedKeys(m)
 }
 
-func (ex *Exec) checkInvariants(st *State, fr *Frame, n int, spec *LoopSpec, class string) {
+func (ex *Exec) checkInvariants(st *State, fr *Frame, head *ssa.BasicBlock, n int, spec *LoopSpec, class string) {
 	env := ex.invEnv(st, fr)
+	env.loopHead = head
 	for _, inv := range spec.Invariants {
+		if !ex.active(inv.Props) {
+			continue
+		}
 		t, err := ex.evalSpecBool(inv.Expr, env)
 		if err != nil {
 			ex.errors = append(ex.errors, fmt.Sprintf("%s: loop %d invariant %s: %v", fr.fn, n, inv.Label, err))
@@ -393,11 +436,65 @@ func (ex *Exec) havocLoop(st *State, fr *Frame, head *ssa.BasicBlock) {
 	// closures called in the loop may store to captured cells: handled by
 	// instrMods marking cellsAll
 	if ms.cellsAll {
-		for c := range st.cells {
-			st.cells[c] = ex.havocVal(st, c.Name, c.Ty)
+		// only cells whose address escapes (captured by a closure or passed
+		// to a callee) can be written by code outside the loop body's text
+		for a := range escapingAllocs(fr.fn) {
+			if v, ok := st.regs[a]; ok && v.Kind == VCellPtr {
+				st.cells[v.Cell] = ex.havocVal(st, v.Cell.Name, v.Cell.Ty)
+			}
+		}
+		for _, fv := range fr.fn.FreeVars {
+			if v, ok := st.regs[fv]; ok && v.Kind == VCellPtr {
+				st.cells[v.Cell] = ex.havocVal(st, v.Cell.Name, v.Cell.Ty)
+			}
 		}
 	}
 	ex.applyModSet(st, ms)
+	st.bumpAlloc()
+	// re-establish that havocked cells hold allocated ids
+	for c, v := range st.cells {
+		if v.Kind == VTerm {
+			ex.knownVal(st, v.T, c.Ty)
+		}
+	}
+}
+
+var escCache = map[*ssa.Function]map[*ssa.Alloc]bool{}
+
+func escapingAllocs(fn *ssa.Function) map[*ssa.Alloc]bool {
+	if m, ok := escCache[fn]; ok {
+		return m
+	}
+	m := map[*ssa.Alloc]bool{}
+	for _, b := range fn.Blocks {
+		for _, ins := range b.Instrs {
+			var ops []*ssa.Value
+			switch x := ins.(type) {
+			case *ssa.MakeClosure:
+				for _, bv := range x.Bindings {
+					if a, ok := bv.(*ssa.Alloc); ok {
+						m[a] = true
+					}
+				}
+			case *ssa.Call, *ssa.Defer, *ssa.Go, *ssa.Store, *ssa.MakeInterface, *ssa.Return, *ssa.Phi:
+				ops = ins.Operands(ops)
+				for i, op := range ops {
+					if op == nil || *op == nil {
+						continue
+					}
+					if st, ok := ins.(*ssa.Store); ok && i == 0 {
+						_ = st
+						continue // the address operand of a store is not an escape
+					}
+					if a, ok := (*op).(*ssa.Alloc); ok {
+						m[a] = true
+					}
+				}
+			}
+		}
+	}
+	escCache[fn] = m
+	return m
 }
 
 // ---------------------------------------------------------------- stepping
@@ -515,7 +612,7 @@ func (ex *Exec) instr(st *State, fr *Frame, ins ssa.Instruction, prev *ssa.Basic
 	case *ssa.UnOp:
 		st.regs[x] = ex.unop(st, fr, x)
 	case *ssa.BinOp:
-		st.regs[x] = ex.binop(st, fr, x.Op, ex.get(st, x.X), ex.get(st, x.Y), x.Type(), x.Pos())
+		st.regs[x] = ex.binop(st, fr, x.Op, ex.get(st, x.X), ex.get(st, x.Y), x.Type(), x.Pos(), x.Name())
 	case *ssa.FieldAddr:
 		st.regs[x] = ex.fieldAddr(st, fr, x)
 	case *ssa.Field:
@@ -755,11 +852,13 @@ func (ex *Exec) load(st *State, fr *Frame, p Val, ty types.Type) Val {
 		h := st.heap(p.Heap, ArraySort(fs))
 		v := Select(h, p.Obj)
 		ex.assumeTypeInv(st, v, p.FieldTy)
+		ex.knownVal(st, v, p.FieldTy)
 		return TV(v, p.FieldTy)
 	case VElemPtr:
 		es := sortOf(p.ElemTy)
 		v := Select(ex.regionArr(st, nil, p.Rg, es), p.Idx)
 		ex.assumeTypeInv(st, v, p.ElemTy)
+		ex.knownVal(st, v, p.ElemTy)
 		return TV(v, p.ElemTy)
 	case VGlobalPtr:
 		return ex.loadGlobal(st, p.Global)
@@ -900,7 +999,7 @@ func (ex *Exec) wrapInt(st *State, fr *Frame, r Term, ty types.Type, label strin
 	return r
 }
 
-func (ex *Exec) binop(st *State, fr *Frame, op token.Token, a, b Val, rty types.Type, pos token.Pos) Val {
+func (ex *Exec) binop(st *State, fr *Frame, op token.Token, a, b Val, rty types.Type, pos token.Pos, iname string) Val {
 	if a.Kind != VTerm || b.Kind != VTerm {
 		// comparisons of function values etc. with nil
 		if op == token.EQL || op == token.NEQ {
@@ -916,7 +1015,7 @@ func (ex *Exec) binop(st *State, fr *Frame, op token.Token, a, b Val, rty types.
 		return ex.havocVal(st, "binop", rty)
 	}
 	x, y := a.T, b.T
-	lab := fmt.Sprintf("%s.%d", op, len(st.script))
+	lab := iname
 	switch {
 	case x.Sort == SortInt && y.Sort == SortInt:
 		ty := a.Ty
